@@ -250,15 +250,15 @@ Proof.
     apply of_cat_cat in Hg. unfold category_of in Hg. rewrite E2, E in Hg. discriminate.
 Qed.
 Theorem generic_hide_exact_rp L T : id_inj L -> TG_rp L ->
-  generic_hide_hit matches pr (tags_with_set h (blocker_new h L) T) = spec_generic_hide matches L.
+  generic_hide_hit matches pr (tags_with_set h (blocker_new h L) T) = spec_generic_hide matches L T.
 Proof.
-  intros Hinj Htg. unfold generic_hide_hit, spec_generic_hide, tags_with_set, blocker_new. cbn [b_generic_hide].
-  fold (found (of_cat CGenericHide L) []). change (act matches) with (hit matches).
+  intros Hinj Htg. unfold generic_hide_hit, spec_generic_hide, tags_with_set, blocker_new. cbn [b_generic_hide b_tags].
+  fold (found (of_cat CGenericHide L) T). change (act matches) with (hit matches).
   pose proof (of_cat_incl CGenericHide L) as I.
   assert (G : TG h matches pr (of_cat CGenericHide L)).
   { intros g Hg Hm. apply Htg; auto. intros E. apply of_cat_cat in Hg. unfold category_of in Hg.
     rewrite E in Hg. destruct (is_csp g); discriminate. }
-  rewrite (found_bool_self _ [] (id_inj_incl _ _ I Hinj) G). reflexivity.
+  rewrite (found_bool_self _ T (id_inj_incl _ _ I Hinj) G). reflexivity.
 Qed.
 
 Section Compose.
